@@ -169,6 +169,9 @@ Definition final (strict : bool) (st : lstate) (x : bytes) : dload :=
       end
   end.
 
+Lemma step_nil strict st : step strict st [] = None.
+Proof. reflexivity. Qed.
+
 Lemma load_loop_step strict f st x :
   load_loop strict (S f) st x =
   match step strict st x with
@@ -299,6 +302,37 @@ Proof.
       destruct (IH y st1 ltac:(lia)) as (st' & y' & Hr & Hn').
       exists st', y'. split; [|exact Hn']. eapply runs_cons; [exact Es|exact Hr].
     + exists st, x. split; [apply runs_nil|exact Es].
+Qed.
+
+Lemma runs_inv_nonempty strict st x st' :
+  runs strict st x st' [] -> x <> [] ->
+  exists st1 y, step strict st x = Some (st1, y) /\ runs strict st1 y st' [].
+Proof.
+  intros H Hne. inversion H as [st0 x0|st0 x0 st1 y st2 z Hs Hr]; subst.
+  - congruence.
+  - exists st1, y. split; assumption.
+Qed.
+
+(* Determinism: the records of a clean prefix are the first records of any clean extension. *)
+Lemma runs_det_prefix strict st c st1 :
+  runs strict st c st1 [] ->
+  forall z st', runs strict st (c ++ z) st' [] -> runs strict st1 z st' [].
+Proof.
+  intros H. remember [] as e eqn:He. revert He.
+  induction H as [st x|st x sta ya st1 e' Hs Hr IH]; intros He z st' H2.
+  - subst x. exact H2.
+  - subst e'. destruct (step_anatomy _ _ _ _ _ Hs) as (c0 & -> & Hc0 & _ & _ & Hx & _).
+    rewrite <- app_assoc in H2.
+    destruct (runs_inv_nonempty _ _ _ _ H2) as (stb & yb & Hsb & Hrb).
+    { destruct c0; [cbn [length] in Hc0; lia|discriminate]. }
+    rewrite Hx in Hsb. inversion Hsb; subst stb yb.
+    apply IH; [reflexivity|exact Hrb].
+Qed.
+
+Lemma runs_stuck strict st x st' :
+  step strict st x = None -> x <> [] -> ~ runs strict st x st' [].
+Proof.
+  intros Hs Hne H. destruct (runs_inv_nonempty _ _ _ _ H Hne) as (st1 & y & Hs1 & _). congruence.
 Qed.
 
 Lemma take16_header x : take 16 (deps_header ++ x) = Some (deps_header, x).
@@ -695,49 +729,117 @@ Qed.
 (* 6. The writer                                                                        *)
 
 (* "the bytes [w] written from state [s] are whole records leading the loader to [s']" *)
-Definition writes (strict : bool) (s : dstate) (w : bytes) (s' : dstate) : Prop :=
-  forall st z, l_s st = s ->
-    exists st1, runs strict st (w ++ z) st1 z /\ l_s st1 = s' /\ l_off st1 = l_off st + nlen w.
+(* every record boundary of [x] (seen by a loader in state [st]) is reached in a well-formed
+   state *)
+Definition okcuts (strict : bool) (st : lstate) (x : bytes) : Prop :=
+  forall c rest st1, x = c ++ rest -> runs strict st c st1 [] -> ok_state (l_s st1).
 
-Lemma writes_nil strict s : writes strict s [] s.
+Lemma runs_nil_inv strict st st1 : runs strict st [] st1 [] -> st1 = st.
 Proof.
-  intros st z Hs. exists st. split; [apply runs_nil|]. split; [exact Hs|].
-  unfold nlen. cbn [length]. lia.
+  intros H. inversion H as [st0 x0|st0 x0 sta y st2 z Hs Hr]; subst; [reflexivity|].
+  rewrite step_nil in Hs. discriminate.
+Qed.
+
+Lemma okcuts_nil strict st : ok_state (l_s st) -> okcuts strict st [].
+Proof.
+  intros Hok c rest st1 Hx Hr. symmetry in Hx. apply app_eq_nil in Hx. destruct Hx as [-> _].
+  apply runs_nil_inv in Hr. subst st1. exact Hok.
+Qed.
+
+Lemma okcuts_single strict st w st' :
+  ok_state (l_s st) -> ok_state (l_s st') -> step strict st w = Some (st', []) ->
+  okcuts strict st w.
+Proof.
+  intros Hok Hok' Hs c rest st1 Hx Hr.
+  destruct c as [|b c'].
+  - apply runs_nil_inv in Hr. subst st1. exact Hok.
+  - destruct (runs_inv_nonempty _ _ _ _ Hr ltac:(discriminate)) as (sta & ya & Hsa & Hra).
+    destruct (step_anatomy _ _ _ _ _ Hs) as (c0 & Hc0 & _ & _ & _ & _ & Hpre).
+    rewrite app_nil_r in Hc0. subst c0.
+    destruct rest as [|r0 rest'].
+    + rewrite app_nil_r in Hx. subst w. rewrite Hs in Hsa. inversion Hsa; subst sta ya.
+      apply runs_nil_inv in Hra. subst st1. exact Hok'.
+    + exfalso. destruct (Hpre (length (b :: c'))) as [Hn _].
+      { rewrite Hx, app_length. cbn [length]. lia. }
+      rewrite Hx, firstn_app, Nat.sub_diag, firstn_all in Hn. cbn [firstn] in Hn.
+      rewrite app_nil_r in Hn. congruence.
+Qed.
+
+Lemma okcuts_app strict st w1 stm w2 :
+  okcuts strict st w1 -> runs strict st w1 stm [] -> okcuts strict stm w2 ->
+  okcuts strict st (w1 ++ w2).
+Proof.
+  intros H1 Hr H2 c rest st1 Hx Hrc.
+  apply app_eq_app in Hx. destruct Hx as (l & [[-> ->]|[-> ->]]).
+  - eapply H1; [reflexivity|exact Hrc].
+  - pose proof (runs_det_prefix _ _ _ _ Hr _ _ Hrc) as Hr2.
+    eapply H2; [reflexivity|exact Hr2].
+Qed.
+
+Lemma okcuts_prefix strict st x1 rest : okcuts strict st (x1 ++ rest) -> okcuts strict st x1.
+Proof.
+  intros H c r st1 Hx Hr. eapply H; [|exact Hr]. rewrite Hx, <- app_assoc. reflexivity.
+Qed.
+
+Definition writes (strict : bool) (s : dstate) (w : bytes) (s' : dstate) : Prop :=
+  (forall st z, l_s st = s ->
+     exists st1, runs strict st (w ++ z) st1 z /\ l_s st1 = s' /\ l_off st1 = l_off st + nlen w)
+  /\ (forall st, l_s st = s -> okcuts strict st w).
+
+Lemma writes_nil strict s : ok_state s -> writes strict s [] s.
+Proof.
+  intros Hok. split.
+  - intros st z Hs. exists st. split; [apply runs_nil|]. split; [exact Hs|].
+    unfold nlen. cbn [length]. lia.
+  - intros st Hs. apply okcuts_nil. rewrite Hs. exact Hok.
 Qed.
 
 Lemma writes_app strict s w1 s1 w2 s2 :
   writes strict s w1 s1 -> writes strict s1 w2 s2 -> writes strict s (w1 ++ w2) s2.
 Proof.
-  intros H1 H2 st z Hs.
-  destruct (H1 st (w2 ++ z) Hs) as (st1 & R1 & E1 & O1).
-  destruct (H2 st1 z E1) as (st2 & R2 & E2 & O2).
-  exists st2. split; [rewrite <- app_assoc; eapply runs_trans; eassumption|].
-  split; [exact E2|]. rewrite nlen_app. lia.
+  intros [H1 K1] [H2 K2]. split.
+  - intros st z Hs.
+    destruct (H1 st (w2 ++ z) Hs) as (st1 & R1 & E1 & O1).
+    destruct (H2 st1 z E1) as (st2 & R2 & E2 & O2).
+    exists st2. split; [rewrite <- app_assoc; eapply runs_trans; eassumption|].
+    split; [exact E2|]. rewrite nlen_app. lia.
+  - intros st Hs. destruct (H1 st [] Hs) as (stm & Rm & Em & _). rewrite app_nil_r in Rm.
+    eapply okcuts_app; [apply K1; exact Hs|exact Rm|apply K2; exact Em].
 Qed.
 
 Lemma nodup_incl_nlen (l U : list bytes) : NoDup l -> incl l U -> nlen l <= nlen U.
 Proof. intros H1 H2. pose proof (NoDup_incl_length H1 H2). unfold nlen. lia. Qed.
 
 Lemma writes_path strict s (p : bytes) :
-  wf_path p = true -> nlen (d_paths s) < two31 -> ~ In p (d_paths s) ->
+  ok_state s -> wf_path p = true -> nlen (d_paths s) < two31 -> ~ In p (d_paths s) ->
   writes strict s (enc_path_record (nlen (d_paths s)) p) (add_path s p).
 Proof.
-  intros Hwf Hn Hnin st z Hs. subst s.
-  eexists. split.
-  - eapply runs_cons; [apply step_enc_path; assumption|apply runs_nil].
-  - split; [reflexivity|]. cbn [l_add_path l_off].
-    rewrite enc_path_record_eq, nlen_app, path_body_len. unfold nlen. rewrite le32_length. lia.
+  intros Hok Hwf Hn Hnin. split.
+  - intros st z Hs. subst s.
+    eexists. split.
+    + eapply runs_cons; [apply step_enc_path; assumption|apply runs_nil].
+    + split; [reflexivity|]. cbn [l_add_path l_off].
+      rewrite enc_path_record_eq, nlen_app, path_body_len. unfold nlen. rewrite le32_length. lia.
+  - intros st Hs. subst s.
+    eapply okcuts_single; [exact Hok| |].
+    2:{ rewrite <- (app_nil_r (enc_path_record _ _)). apply step_enc_path; assumption. }
+    cbn [l_add_path l_s]. apply ok_add_path; assumption.
 Qed.
 
 Lemma writes_deps strict s o m ins :
-  nlen (d_paths s) < two31 -> deps_ok (nlen (d_paths s)) (o, (m, ins)) ->
+  ok_state s -> nlen (d_paths s) < two31 -> deps_ok (nlen (d_paths s)) (o, (m, ins)) ->
   writes strict s (enc_deps_record o m ins) (add_deps s o m ins).
 Proof.
-  intros Hn (H1 & H2 & H3 & H4) st z Hs. subst s. cbn [fst snd] in *.
-  eexists. split.
-  - eapply runs_cons; [apply step_enc_deps; try assumption; lia|apply runs_nil].
-  - split; [reflexivity|]. cbn [l_add_deps l_off].
-    rewrite enc_deps_record_eq, nlen_app, deps_body_len. unfold nlen. rewrite le32_length. lia.
+  intros Hok Hn Hd. pose proof Hd as (H1 & H2 & H3 & H4). cbn [fst snd] in *. split.
+  - intros st z Hs. subst s.
+    eexists. split.
+    + eapply runs_cons; [apply step_enc_deps; try assumption; lia|apply runs_nil].
+    + split; [reflexivity|]. cbn [l_add_deps l_off].
+      rewrite enc_deps_record_eq, nlen_app, deps_body_len. unfold nlen. rewrite le32_length. lia.
+  - intros st Hs. subst s.
+    eapply okcuts_single; [exact Hok| |].
+    2:{ rewrite <- (app_nil_r (enc_deps_record _ _ _)). apply step_enc_deps; try assumption; lia. }
+    cbn [l_add_deps l_s]. apply ok_add_deps; assumption.
 Qed.
 
 Lemma ensure_ids_spec strict (U : list bytes) : nlen U < kMaxIds ->
@@ -753,7 +855,7 @@ Proof.
   intros HU. induction ps as [|p r IH]; intros s w0 made0 Hok Hincl Hps Hwf.
   - exists s, [], made0. cbn [ensure_ids]. rewrite app_nil_r.
     split; [reflexivity|]. split; [exact Hok|]. split; [exact Hincl|]. split; [reflexivity|].
-    split; [exists []; symmetry; apply app_nil_r|]. split; [constructor|apply writes_nil].
+    split; [exists []; symmetry; apply app_nil_r|]. split; [constructor|apply writes_nil; exact Hok].
   - inversion Hwf as [|p' r' Hp Hr]; subst.
     assert (HpU : In p U) by (apply Hps; left; reflexivity).
     assert (HrU : incl r U) by (intros x Hx; apply Hps; right; exact Hx).
@@ -851,7 +953,7 @@ Proof.
     split; [reflexivity|]. split; [apply ok_add_deps; assumption|].
     split; [exact In1|].
     split.
-    { eapply writes_app; [exact W1|]. apply writes_deps; [|exact Hdok].
+    { eapply writes_app; [exact W1|]. apply writes_deps; [exact Ok1| |exact Hdok].
       unfold kMaxIds, two31 in *. lia. }
     split.
     { eapply extends_trans; [exact Hext1|]. cbn [add_deps]. split; cbn [d_paths d_deps].
@@ -881,7 +983,7 @@ Lemma run_ops_spec strict (U : list bytes) : nlen U < kMaxIds ->
 Proof.
   intros HU. induction ops as [|op r IH]; intros s Hok Hincl HopsU Hwf.
   - exists s, []. cbn [run_ops]. split; [reflexivity|]. split; [exact Hok|]. split; [exact Hincl|].
-    split; [apply writes_nil|]. split; [apply extends_refl|]. intros o. reflexivity.
+    split; [apply writes_nil; exact Hok|]. split; [apply extends_refl|]. intros o. reflexivity.
   - inversion HopsU as [|op' r' HopU HrU]; subst.
     cbn [forallb] in Hwf. apply andb_true_iff in Hwf. destruct Hwf as [Hwop Hwr].
     destruct (record_deps_spec strict U s op HU Hok Hincl HopU Hwop)
@@ -903,9 +1005,6 @@ Qed.
 Definition clean (strict : bool) (f : bytes) (s : dstate) : Prop :=
   exists x st, f = deps_header ++ x /\ runs strict l_init x st [] /\ l_s st = s.
 
-Lemma step_nil strict st : step strict st [] = None.
-Proof. reflexivity. Qed.
-
 Lemma clean_load strict f s :
   clean strict f s -> exists nr, load_deps_gen strict f = DOk s None nr.
 Proof.
@@ -924,7 +1023,7 @@ Proof.
   intros (x & st & -> & Hr & Hs) Hw.
   destruct (runs_anatomy _ _ _ _ _ Hr) as (c & Hc & _ & _ & Hx).
   rewrite app_nil_r in Hc. subst c.
-  destruct (Hw st [] Hs) as (st1 & R1 & E1 & _). rewrite app_nil_r in R1.
+  destruct (proj1 Hw st [] Hs) as (st1 & R1 & E1 & _). rewrite app_nil_r in R1.
   exists (x ++ w), st1. split; [rewrite app_assoc; reflexivity|].
   split; [eapply runs_trans; [apply Hx|exact R1]|exact E1].
 Qed.
@@ -934,6 +1033,26 @@ Lemma clean_off strict x st :
 Proof.
   intros Hr. destruct (runs_anatomy _ _ _ _ _ Hr) as (c & Hc & Ho & _).
   rewrite app_nil_r in Hc. subst c. exact Ho.
+Qed.
+
+(* a clean file all of whose record boundaries are reached in well-formed states: what the
+   writer produces *)
+Definition oclean (strict : bool) (f : bytes) (s : dstate) : Prop :=
+  clean strict f s /\ exists x, f = deps_header ++ x /\ okcuts strict l_init x.
+
+Lemma oclean_header strict : oclean strict deps_header d_empty.
+Proof.
+  split; [apply clean_header|]. exists []. split; [symmetry; apply app_nil_r|].
+  apply okcuts_nil. exact ok_empty.
+Qed.
+
+Lemma oclean_append strict f s w s' :
+  oclean strict f s -> writes strict s w s' -> oclean strict (f ++ w) s'.
+Proof.
+  intros [Hcl (x & Hx & Kx)] Hw. split; [eapply clean_append; eassumption|].
+  destruct Hcl as (x' & st & Hx' & Hr & Hs). rewrite Hx in Hx'. apply app_inv_head in Hx'. subst x'.
+  exists (x ++ w). split; [rewrite Hx, app_assoc; reflexivity|].
+  eapply okcuts_app; [exact Kx|exact Hr|apply (proj2 Hw); exact Hs].
 Qed.
 
 (* ==================================================================================== *)
@@ -1051,7 +1170,7 @@ Theorem recompact_spec strict live s :
   ok_state s -> nlen (d_paths s) < kMaxIds ->
   exists s2 w,
     recompact_r live s = COk s2 (deps_header ++ w) /\
-    clean strict (deps_header ++ w) s2 /\ ok_state s2 /\ incl (d_paths s2) (d_paths s) /\
+    oclean strict (deps_header ++ w) s2 /\ ok_state s2 /\ incl (d_paths s2) (d_paths s) /\
     (forall o, view s2 o = if live o then view s o else None).
 Proof.
   intros Hok Hcnt. unfold recompact_r.
@@ -1068,7 +1187,7 @@ Proof.
     as (s2 & w & E2 & Ok2 & In2 & W2 & _ & V2); try assumption.
   { intros x []. }
   rewrite E2. exists s2, w. split; [reflexivity|].
-  split; [eapply clean_append; [apply clean_header|exact W2]|].
+  split; [eapply oclean_append; [apply oclean_header|exact W2]|].
   split; [exact Ok2|]. split; [exact In2|].
   intros o. rewrite V2. unfold upd. rewrite view_empty.
   transitivity (spec_view (abstract_ops ops o)).
@@ -1086,16 +1205,16 @@ Qed.
 (* 9. Sessions                                                                          *)
 
 Lemma session_spec strict live (U : list bytes) f s ops :
-  nlen U < kMaxIds -> clean strict f s -> ok_state s -> incl (d_paths s) U ->
+  nlen U < kMaxIds -> oclean strict f s -> ok_state s -> incl (d_paths s) U ->
   Forall (fun op => incl (op_paths op) U) ops -> forallb wf_op ops = true ->
   exists s' nr,
     load_deps_gen strict f = DOk s None nr /\
-    clean strict (session_gen strict live f ops) s' /\ ok_state s' /\ incl (d_paths s') U /\
+    oclean strict (session_gen strict live f ops) s' /\ ok_state s' /\ incl (d_paths s') U /\
     (forall o, view s' o =
                upd (fun o => if nr then (if live o then view s o else None) else view s o) ops o).
 Proof.
   intros HU Hcl Hok Hincl HopsU Hwf.
-  destruct (clean_load _ _ _ Hcl) as [nr Hload].
+  destruct (clean_load _ _ _ (proj1 Hcl)) as [nr Hload].
   unfold session_gen. rewrite Hload. destruct nr.
   - pose proof (nodup_incl_nlen _ _ (ok_nodup _ Hok) Hincl) as Hcnt.
     destruct (recompact_spec strict live s Hok ltac:(lia)) as (s2 & w2 & E2 & Cl2 & Ok2 & In2 & V2).
@@ -1104,12 +1223,12 @@ Proof.
       try assumption.
     { intros x Hx. apply Hincl. apply In2. exact Hx. }
     rewrite E3. exists s3, true. split; [reflexivity|].
-    split; [eapply clean_append; eassumption|]. split; [exact Ok3|]. split; [exact In3|].
+    split; [eapply oclean_append; eassumption|]. split; [exact Ok3|]. split; [exact In3|].
     intros o. rewrite V3. unfold upd. destruct (abstract_ops ops o); [reflexivity|apply V2].
   - destruct (run_ops_spec strict U HU ops s Hok) as (s3 & w3 & E3 & Ok3 & In3 & W3 & _ & V3);
       try assumption.
     rewrite E3. exists s3, false. split; [reflexivity|].
-    split; [eapply clean_append; eassumption|]. split; [exact Ok3|]. split; [exact In3|].
+    split; [eapply oclean_append; eassumption|]. split; [exact Ok3|]. split; [exact In3|].
     exact V3.
 Qed.
 
@@ -1162,13 +1281,13 @@ Proof. rewrite forallb_app. intros H. apply andb_true_iff in H. exact H. Qed.
 
 Lemma run_sessions_inv live (U : list bytes) : nlen U < kMaxIds ->
   forall sessions f prev s,
-  clean true f s -> ok_state s -> incl (d_paths s) U ->
+  oclean true f s -> ok_state s -> incl (d_paths s) U ->
   (forall o, view s o = spec_view (abstract_ops prev o)) ->
   Forall (fun op => incl (op_paths op) U) (concat sessions) ->
   forallb wf_op (concat sessions) = true ->
   (forall out m ins, In (RecordDeps out m ins) (prev ++ concat sessions) -> live out = true) ->
   exists s',
-    clean true (run_sessions live f sessions) s' /\ ok_state s' /\ incl (d_paths s') U /\
+    oclean true (run_sessions live f sessions) s' /\ ok_state s' /\ incl (d_paths s') U /\
     (forall o, view s' o = spec_view (abstract_ops (prev ++ concat sessions) o)).
 Proof.
   intros HU. induction sessions as [|ops r IH]; intros f prev s Hcl Hok Hincl Hv HUs Hwf Hlive.
@@ -1200,8 +1319,9 @@ Qed.
 Lemma run_sessions_clean live first rest :
   wf_ops (concat (first :: rest)) ->
   (forall out m ins, In (RecordDeps out m ins) (concat (first :: rest)) -> live out = true) ->
-  exists s, clean true (run_sessions live [] (first :: rest)) s /\ ok_state s /\
+  exists s, oclean true (run_sessions live [] (first :: rest)) s /\ ok_state s /\
             nlen (d_paths s) < kMaxIds /\
+            incl (d_paths s) (flat_map op_paths (concat (first :: rest))) /\
             forall o, view s o = spec_view (abstract_ops (concat (first :: rest)) o).
 Proof.
   intros [Hwf Hcnt] Hlive.
@@ -1212,13 +1332,13 @@ Proof.
   change (fold_left (session live) rest (session_gen true live deps_header first))
     with (run_sessions live deps_header (first :: rest)).
   destruct (run_sessions_inv live U HU (first :: rest) deps_header [] d_empty
-              (clean_header true) ok_empty) as (s & Cl & Ok & In' & V).
+              (oclean_header true) ok_empty) as (s & Cl & Ok & In' & V).
   - intros x [].
   - intros o. reflexivity.
   - apply op_paths_incl.
   - exact Hwf.
   - exact Hlive.
-  - exists s. split; [exact Cl|]. split; [exact Ok|]. split; [|exact V].
+  - exists s. split; [exact Cl|]. split; [exact Ok|]. split; [|split; [exact In'|exact V]].
     pose proof (nodup_incl_nlen _ _ (ok_nodup _ Ok) In'). lia.
 Qed.
 
@@ -1231,22 +1351,23 @@ Theorem C09_sessions_thm live first rest :
     forall o, view s o = spec_view (abstract_ops (concat (first :: rest)) o).
 Proof.
   intros Hwf Hlive.
-  destruct (run_sessions_clean live first rest Hwf Hlive) as (s & Cl & Ok & _ & V).
-  destruct (clean_load _ _ _ Cl) as [nr Hl]. exists s, nr.
+  destruct (run_sessions_clean live first rest Hwf Hlive) as (s & Cl & Ok & _ & _ & V).
+  destruct (clean_load _ _ _ (proj1 Cl)) as [nr Hl]. exists s, nr.
   split; [exact Hl|]. split; [exact Ok|exact V].
 Qed.
 
 Lemma apply_ops_clean ops :
   wf_ops ops ->
-  exists s, clean true (apply_ops [] ops) s /\ ok_state s /\ nlen (d_paths s) < kMaxIds /\
+  exists s, oclean true (apply_ops [] ops) s /\ ok_state s /\ nlen (d_paths s) < kMaxIds /\
+            incl (d_paths s) (flat_map op_paths ops) /\
             forall o, view s o = spec_view (abstract_ops ops o).
 Proof.
   intros Hwf.
-  destruct (run_sessions_clean (fun _ => true) ops []) as (s & Cl & Ok & Hc & Hv).
+  destruct (run_sessions_clean (fun _ => true) ops []) as (s & Cl & Ok & Hc & Hi & Hv).
   - cbn [concat]. rewrite app_nil_r. exact Hwf.
   - reflexivity.
   - exists s. split; [exact Cl|]. split; [exact Ok|]. split; [exact Hc|].
-    intros o. rewrite Hv. cbn [concat]. rewrite app_nil_r. reflexivity.
+    cbn [concat] in Hi, Hv. rewrite app_nil_r in Hi, Hv. split; [exact Hi|exact Hv].
 Qed.
 
 Theorem C09_roundtrip_thm ops :
@@ -1275,43 +1396,12 @@ Proof.
   intros Hok Hcnt.
   destruct (recompact_spec true live s Hok Hcnt) as (s2 & w & E & Cl & Ok2 & _ & V).
   unfold recompact. rewrite E.
-  destruct (clean_load _ _ _ Cl) as [nr Hl].
+  destruct (clean_load _ _ _ (proj1 Cl)) as [nr Hl].
   exists s2, nr. split; [exact Hl|]. split; [exact Ok2|exact V].
 Qed.
 
 (* ==================================================================================== *)
 (* 10. Torn files                                                                       *)
-
-Lemma runs_inv_nonempty strict st x st' :
-  runs strict st x st' [] -> x <> [] ->
-  exists st1 y, step strict st x = Some (st1, y) /\ runs strict st1 y st' [].
-Proof.
-  intros H Hne. inversion H as [st0 x0|st0 x0 st1 y st2 z Hs Hr]; subst.
-  - congruence.
-  - exists st1, y. split; assumption.
-Qed.
-
-(* Determinism: the records of a clean prefix are the first records of any clean extension. *)
-Lemma runs_det_prefix strict st c st1 :
-  runs strict st c st1 [] ->
-  forall z st', runs strict st (c ++ z) st' [] -> runs strict st1 z st' [].
-Proof.
-  intros H. remember [] as e eqn:He. revert He.
-  induction H as [st x|st x sta ya st1 e' Hs Hr IH]; intros He z st' H2.
-  - subst x. exact H2.
-  - subst e'. destruct (step_anatomy _ _ _ _ _ Hs) as (c0 & -> & Hc0 & _ & _ & Hx & _).
-    rewrite <- app_assoc in H2.
-    destruct (runs_inv_nonempty _ _ _ _ H2) as (stb & yb & Hsb & Hrb).
-    { destruct c0; [cbn [length] in Hc0; lia|discriminate]. }
-    rewrite Hx in Hsb. inversion Hsb; subst stb yb.
-    apply IH; [reflexivity|exact Hrb].
-Qed.
-
-Lemma runs_stuck strict st x st' :
-  step strict st x = None -> x <> [] -> ~ runs strict st x st' [].
-Proof.
-  intros Hs Hne H. destruct (runs_inv_nonempty _ _ _ _ H Hne) as (st1 & y & Hs1 & _). congruence.
-Qed.
 
 Lemma torn_runs strict st x st' :
   runs strict st x st' [] ->
@@ -1361,6 +1451,7 @@ Theorem torn_clean strict f s :
     (16 <= off <= k)%nat /\
     clean strict (firstn off f) s1 /\
     (forall j s', (off < j <= k)%nat -> ~ clean strict (firstn j f) s') /\
+    extends s1 s /\
     load_deps_gen strict (firstn k f) =
       (if (k - off <? 4)%nat then DOk s1 None nr1 else DOk s1 (Some off) false).
 Proof.
@@ -1383,6 +1474,9 @@ Proof.
     pose proof (runs_det_prefix _ _ _ _ Hr1 _ _ Hr') as Hr2.
     destruct (Hins (j - 16 - length c)%nat ltac:(lia)) as [Hn Hne].
     exact (runs_stuck _ _ _ _ Hn Hne Hr2). }
+  split.
+  { pose proof (runs_det_prefix _ _ _ _ Hr1 _ _ Hr) as Hr2.
+    destruct (runs_anatomy _ _ _ _ _ Hr2) as (_ & _ & _ & He & _). rewrite Hs in He. exact He. }
   rewrite Hcut by lia.
   destruct (runs_anatomy _ _ _ _ _ Hr1) as (c1 & Hc1 & Hoff & _ & Hx1).
   rewrite app_nil_r in Hc1. subst c1.
@@ -1417,8 +1511,9 @@ Theorem C09_torn_partial_thm ops :
 Proof.
   intros Hwf k Hk. split.
   - intros Hlt. apply torn_header. exact Hlt.
-  - intros Hge. destruct (apply_ops_clean ops Hwf) as (s & Cl & _).
-    apply (torn_clean true _ s Cl k). lia.
+  - intros Hge. destruct (apply_ops_clean ops Hwf) as (s & [Cl _] & _).
+    destruct (torn_clean true _ s Cl k ltac:(lia)) as (off & s1 & nr1 & H1 & H2 & H3 & _ & H4).
+    exists off, s1, nr1. repeat split; try assumption; lia.
 Qed.
 
 (* The statement one would like: every cut that is not on a record boundary is truncated
@@ -1591,7 +1686,7 @@ Theorem C13_depslog_bounds_refuted_thm :
   (exists s, load_deps unsafe_recompact = DOk s None false /\
              forall live, recompact_r live s = CUnsafe 1).
 Proof.
-  repeat split; try (vm_compute; reflexivity).
+  do 7 (split; [vm_compute; reflexivity|]).
   exists (mkD [] [(0, (0%Z, []))]). split; [vm_compute; reflexivity|].
   intros live. reflexivity.
 Qed.
@@ -1639,14 +1734,14 @@ Proof.
         + (* path part of 1 byte *)
           assert (Hb : buf = [r0; c0; c1; c2; c3]).
           { rewrite <- (rev_involutive buf), Er. reflexivity. }
-          subst buf. cbn [short_all_nul] in Hs. unfold strip3, strip_step.
-          destruct (r0 =? 0); [discriminate|discriminate].
+          subst buf. cbn [short_all_nul] in Hs. apply negb_true_iff in Hs.
+          unfold strip3, strip_step. repeat (rewrite ?Hs; cbn). discriminate.
         + (* path part of 2 bytes *)
           assert (Hb : buf = [r1; r0; c0; c1; c2; c3]).
           { rewrite <- (rev_involutive buf), Er. reflexivity. }
-          subst buf. cbn [short_all_nul] in Hs. unfold strip3, strip_step.
-          destruct (r0 =? 0); [|destruct (r0 =? 0); discriminate].
-          destruct (r1 =? 0); [discriminate|]. destruct (r1 =? 0); discriminate. }
+          subst buf. cbn [short_all_nul] in Hs.
+          destruct (r0 =? 0) eqn:E0, (r1 =? 0) eqn:E1; try discriminate Hs;
+            unfold strip3, strip_step; repeat (rewrite ?E0, ?E1; cbn); discriminate. }
     destruct (strip3 (r0 :: rp')) as [rp2|]; [|congruence].
     destruct strict.
     + rewrite Hs. cbn [negb andb].
